@@ -972,6 +972,11 @@ def call_builtin(I, fr, name, args, kwargs, node):
         return I.unmodelled(fr, node, name + "()")
     if name == "sum":
         return call_lib(I, fr, "numpy.sum", args[:1], {"__builtin__": const_av(True)}, node)
+    if name == "slice" and 1 <= len(args) <= 3:
+        parts = [None, args[0], None] if len(args) == 1 else [args[0], args[1], args[2] if len(args) == 3 else None]
+        parts = [None if (p is not None and p.kind == K_NONE) else p for p in parts]
+        return AV(kind=K_SLICE, items=tuple(parts), tags=tags_of(*[p for p in parts if p is not None]),
+                  indef=indef_of(*[p for p in parts if p is not None]) if any(p is not None for p in parts) else False)
     if name == "divmod" and len(args) == 2:
         # (q, r) with a == b*q + r exactly; for a positive integer divisor literal q is int(a / b) for a >= 0 and r = a - b*q
         a_, b_ = as_num(args[0]), as_num(args[1])
@@ -1095,6 +1100,8 @@ def call_builtin(I, fr, name, args, kwargs, node):
     if name == "hasattr":
         return _hasattr(I, fr, args, node)
     if name == "getattr":
+        if len(args) >= 2 and args[1].kind in (K_OBJ, K_ARRAY, K_LIST, K_SCALAR, K_TUPLE, K_DICT, K_NONE) and not args[1].indef:
+            I.emit("type-error", fr, node, what="getattr() attribute name is not a string: TypeError")
         if len(args) >= 2 and args[1].has_const() and isinstance(args[1].const, str):
             return I.load_attr(fr, args[0], args[1].const, node)
         I.emit("dynamic-getattr", fr, node)
